@@ -48,6 +48,11 @@ OnlyHonestAccepted == \A c \in Case : Consistent(c) =>
    (Accept(c) <=> (c.r = "honest" /\ c.s = "honest" /\ c.a = "honest" /\ c.m = "same" /\ c.signed = c.verified))
 \* strictness is not vacuous: there are equation-satisfying cases that must be rejected
 StrictnessMatters == \E c \in Case : Consistent(c) /\ Algebraic(c) /\ ~Accept(c)
+\* how the incremental interface is given the message: through one update call, through none at all (the empty message:
+\* init followed directly by final), or split over two.  The signature is a function of the message, not of the calls
+\* (IncHash.tla decides the general partition; here every signing and verifying route of the incremental forms is run
+\* under each element, so that a state that is only completed by its first update call is seen)
+UpdateCalls == {"one", "none_or_two"}
 \* signing is a function: all forms produce Sig(seed, msg, mode)
 SigOf(form, seed, msg, mode) == <<"sig", seed, msg, IF form = "IncrementalSigner" THEN "ph" ELSE mode>>
 Deterministic == \A f, g \in Forms \ {"IncrementalSigner"}, md \in Modes : SigOf(f, "s", "m", md) = SigOf(g, "s", "m", md)
